@@ -321,6 +321,7 @@ class Session:
         def factory(*_a, **_k):               # stands in for serial.Serial(port_name, timeout=1.0), however the arguments are passed
             if sess.dev == "unopenable":
                 raise sess.serial.SerialException("could not open port")
+            OPENED.append(1)
             sess.port = ScriptedPort(sess.serial, sess.dev, lambda text: sess.supplier(text))
             sess.port.close_fault = sess.close_fault
             sess.port.fresh = True
@@ -411,6 +412,7 @@ def judge(ctx, name, events, chunk=400):
 
 CLOSE_FAULTS = ["", "", "serial", "notopen"]
 CLOSE_RAISED = []                 # one entry per close() that raised (run_call looks at its growth)
+OPENED = []                       # one entry per port the code under test opened through the stubbed serial.Serial
 
 
 def run_script(hist, dev, board, start_connected, wsoff=0):
